@@ -6,6 +6,8 @@ package sim
 // timestamps, omitempty, nil/empty normalisation).
 
 import (
+	"k8s.io/apimachinery/pkg/util/validation"
+	"k8s.io/apimachinery/pkg/util/validation/field"
 	"crypto/sha1"
 	"encoding/hex"
 	"encoding/json"
@@ -306,6 +308,14 @@ func (s *Store) Create(kind string, m jmap) ([]byte, error) {
 	k := objKey{kind, ns, name}
 	if _, ok := s.objs[k]; ok {
 		return nil, apierrors.NewAlreadyExists(gr(kind), name)
+	}
+	// label values are validated by the API server (63 characters, restricted alphabet)
+	if lbls, ok := md["labels"].(jmap); ok {
+		for _, lk := range sortedKeys(lbls) {
+			if v, _ := lbls[lk].(string); len(validation.IsValidLabelValue(v)) > 0 {
+				return nil, apierrors.NewInvalid(ki.gvk.GroupKind(), name, field.ErrorList{field.Invalid(field.NewPath("metadata", "labels"), v, "invalid label value")})
+			}
+		}
 	}
 	if rv := mstr(md, "resourceVersion"); rv != "" {
 		return nil, apierrors.NewBadRequest("resourceVersion should not be set on objects to be created")
